@@ -96,7 +96,7 @@ struct Agg {
     restart_segments: u64,
     restart_runs: u64,
     // violating runs of the selected property in the current block: (run index, choices, violation)
-    violating: Vec<(u64, Vec<u32>, Violation, Vec<u64>)>,
+    violating: Vec<(u64, Vec<u32>, Violation, Vec<u64>, bool)>,
 }
 
 impl Agg {
@@ -447,8 +447,8 @@ struct SegResult {
 }
 
 /// executes the history in THIS process (must be fresh); returns (runs, asked, first disagreement)
-fn run_segment(seed: u64, from: u64, to: u64, per_run: usize, only_last: bool) -> Result<(u64, u64, Option<(u64, String)>), String> {
-    let kind = SimKind::Sessions;
+fn run_segment(prop: &str, seed: u64, from: u64, to: u64, per_run: usize, only_last: bool) -> Result<(u64, u64, Option<(u64, String)>), String> {
+    let kind = SimKind::of_prop(prop).unwrap_or(SimKind::Sessions);
     let mut asked = 0;
     let mut runs = 0;
     for i in from..=to {
@@ -459,11 +459,15 @@ fn run_segment(seed: u64, from: u64, to: u64, per_run: usize, only_last: bool) -
         if only_last && i != to {
             continue;
         }
+        // in a single-threaded process a violation inside the run is a function of the history too
+        if let Some(v) = out.violations.iter().find(|v| v.prop == prop) {
+            return Ok((runs, asked, Some((i, format!("[{}] {}", v.kind, v.message)))));
+        }
         if let Stats::S(s) = &out.stats {
             let (n, v) = restart_check(&s.restart_queries, splitmix(rs), per_run)?;
             asked += n;
             if let Some(v) = v {
-                return Ok((runs, asked, Some((i, v.message))));
+                return Ok((runs, asked, Some((i, format!("[{}] {}", v.kind, v.message)))));
             }
         }
     }
@@ -472,11 +476,13 @@ fn run_segment(seed: u64, from: u64, to: u64, per_run: usize, only_last: bool) -
 
 pub fn cmd_segment(args: &[String]) -> u8 {
     let mut seed = 1u64;
+    let mut prop = "C08".to_string();
     let (mut from, mut to, mut per_run, mut only_last) = (0u64, 0u64, 3usize, false);
     let mut i = 0;
     while i < args.len() {
         let v = args.get(i + 1).cloned().unwrap_or_default();
         match args[i].as_str() {
+            "--prop" => prop = v.clone(),
             "--seed" => seed = v.parse().unwrap_or(1),
             "--from" => from = v.parse().unwrap_or(0),
             "--to" => to = v.parse().unwrap_or(0),
@@ -490,7 +496,7 @@ pub fn cmd_segment(args: &[String]) -> u8 {
         }
         i += 2;
     }
-    match run_segment(seed, from, to, per_run, only_last) {
+    match run_segment(&prop, seed, from, to, per_run, only_last) {
         Ok((runs, asked, None)) => {
             println!("SEGMENT-DONE runs={runs} asked={asked}");
             0
@@ -507,10 +513,10 @@ pub fn cmd_segment(args: &[String]) -> u8 {
     }
 }
 
-fn spawn_segment(seed: u64, from: u64, to: u64, per_run: usize, only_last: bool) -> Result<(u64, u64, Option<(u64, String)>), String> {
+fn spawn_segment(prop: &str, seed: u64, from: u64, to: u64, per_run: usize, only_last: bool) -> Result<(u64, u64, Option<(u64, String)>), String> {
     let exe = std::env::current_exe().map_err(|e| e.to_string())?;
     let mut cmd = std::process::Command::new(exe);
-    cmd.arg("segment").arg("--seed").arg(seed.to_string()).arg("--from").arg(from.to_string()).arg("--to").arg(to.to_string()).arg("--per-run").arg(per_run.to_string());
+    cmd.arg("segment").arg("--prop").arg(prop).arg("--seed").arg(seed.to_string()).arg("--from").arg(from.to_string()).arg("--to").arg(to.to_string()).arg("--per-run").arg(per_run.to_string());
     if only_last {
         cmd.arg("--only-last");
     }
@@ -551,7 +557,7 @@ fn segments_phase(opts: &Opts, n_seg: u64, seg_len: u64, per_run: usize) -> Resu
                         }
                         let from = sidx * seg_len;
                         let to = from + seg_len - 1;
-                        out.push(spawn_segment(opts.seed, from, to, per_run, false).map(|r| (sidx, r)));
+                        out.push(spawn_segment(&opts.prop, opts.seed, from, to, per_run, false).map(|r| (sidx, r)));
                     }
                     out
                 })
@@ -584,7 +590,7 @@ fn segments_phase(opts: &Opts, n_seg: u64, seg_len: u64, per_run: usize) -> Resu
         if from == orig_from {
             break;
         }
-        let (_, a, dis) = spawn_segment(opts.seed, from, to, per_run, true)?;
+        let (_, a, dis) = spawn_segment(&opts.prop, opts.seed, from, to, per_run, true)?;
         asked += a;
         if let Some((_, m)) = dis {
             best = (from, m);
@@ -809,7 +815,7 @@ fn run_batch(opts: &Opts) -> Result<u8, String> {
     let mut unreproduced = 0u64;
     let mut unreproduced_note: Option<String> = None;
 
-    while start < total && found.is_none() && hist_found.is_none() && known_matched < 200 && unreproduced < 3 {
+    while start < total && found.is_none() && hist_found.is_none() && known_matched < 200 {
         let end = (start + block).min(total);
         let counter = AtomicU64::new(start);
         let parts: Vec<(Agg, Vec<(u64, u64)>, Option<String>)> = std::thread::scope(|sc| {
@@ -849,7 +855,10 @@ fn run_batch(opts: &Opts) -> Result<u8, String> {
                             }
                             if let Some(v) = mine {
                                 if a.violating.len() < 64 {
-                                    a.violating.push((i, data, v, hist.clone()));
+                                    // does it fail again at once, on a fresh thread? (a cheap first
+                                    // sign that the violation belongs to the run itself)
+                                    let again = run_fresh_thread(kind, &data, false).violations.iter().any(|x| x.prop == prop);
+                                    a.violating.push((i, data, v, hist.clone(), again));
                                 }
                             }
                         }
@@ -875,12 +884,16 @@ fn run_batch(opts: &Opts) -> Result<u8, String> {
         // runs whose violation is a function of their own decisions first (cheap test: replay on a
         // fresh thread of this process); the others - seen only because of what happened before on
         // the thread or elsewhere in the process - are tried afterwards, and only a few of them
-        let (mut own, mut other): (Vec<_>, Vec<_>) = v.into_iter().partition(|(_, data, _, _)| {
-            (0..2).any(|_| run_fresh_thread(kind, data, false).violations.iter().any(|x| x.prop == prop))
-        });
-        other.truncate(3);
+        let (mut own, mut other): (Vec<_>, Vec<_>) = v.into_iter().partition(|x| x.4);
+        // (once three of those could not be replayed, later ones are not tried any more: the search
+        //  goes on for a run that fails on its own)
+        // violations raised by the cooperative-scheduler phases are deterministic by construction
+        // (one thread runs at a time): try those first, they are the ones that will replay
+        own.sort_by_key(|x| (!x.2.kind.ends_with("-concurrent-callers"), x.0));
+        own.truncate(8);
+        other.truncate(if unreproduced >= 3 { 0 } else { 3 });
         own.extend(other);
-        for (i, data, viol, hist) in own {
+        for (i, data, viol, hist, again) in own {
             let kind_s = viol.kind.clone();
             std::fs::create_dir_all(&opts.replay_dir).map_err(|e| format!("{}: {e}", opts.replay_dir))?;
             let path = format!("{}/{}-seed{}-run{}.json", opts.replay_dir, prop, opts.seed, i);
@@ -889,6 +902,11 @@ fn run_batch(opts: &Opts) -> Result<u8, String> {
             write_run_replay(&path, opts, kind, prop, i, &viol, &data, data.len(), 0, &narrative0)?;
             if !child_replays(&path, 3)? {
                 let _ = std::fs::remove_file(&path);
+                if unreproduced >= 3 {
+                    // failed again in this (noisy, multi-threaded) process but not in a quiet one
+                    let _ = again;
+                    continue;
+                }
                 // (B) the outcome depended on what the worker thread did before: replay that
                 // history in a fresh single-threaded process, then minimise the history
                 match history_reproduce(opts, prop, &hist)? {
@@ -967,18 +985,22 @@ fn run_batch(opts: &Opts) -> Result<u8, String> {
 
     // ---- restart oracle (C08): process histories replayed in fresh processes ----
     let mut seg_found: Option<SegFound> = None;
-    if kind == SimKind::Sessions && found.is_none() && hist_found.is_none() && unreproduced == 0 && !opts.dump_digests {
-        let (n_seg, seg_len) = match (opts.segments, opts.tier.as_str()) {
-            (Some(n), _) => (n, 80),
-            (None, "quick") => (opts.workers as u64 * 2, 80),
-            (None, _) => (opts.workers as u64 * 24, 120),
+    // (also the first resort when the threaded batch saw something that does not replay: state that
+    //  accumulates in the PROCESS shows up again in a single-threaded process history, and there it
+    //  is a function of the run sequence)
+    if (kind == SimKind::Sessions || unreproduced > 0) && found.is_none() && hist_found.is_none() && !opts.dump_digests {
+        let (n_seg, seg_len) = match (opts.segments, opts.tier.as_str(), kind) {
+            (Some(n), _, _) => (n, 80),
+            (None, _, SimKind::Terms) => (opts.workers as u64 * 2, 150),
+            (None, "quick", _) => (opts.workers as u64 * 2, 80),
+            (None, _, _) => (opts.workers as u64 * 24, 120),
         };
         let r = segments_phase(opts, n_seg, seg_len, 2)?;
         agg.restart_queries = r.asked;
         agg.restart_segments = n_seg;
         agg.restart_runs = r.runs;
         if let Some(f) = r.found {
-            let hit = known.iter().find(|k| k.status == "open" && k.property == prop && k.kind == "outcome-differs-from-fresh-process" && (k.needle.is_empty() || f.message.contains(&k.needle)));
+            let hit = known.iter().find(|k| k.status == "open" && k.property == prop && f.message.contains(&format!("[{}]", k.kind)) && (k.needle.is_empty() || f.message.contains(&k.needle)));
             if let Some(k) = hit {
                 let line = format!("KNOWN-FINDING: property={prop} {}", k.what);
                 println!("{line}");
@@ -1028,7 +1050,7 @@ fn run_batch(opts: &Opts) -> Result<u8, String> {
         replay_path = format!("{}/{}-seed{}-history{}-{}.json", opts.replay_dir, prop, opts.seed, f.from, f.to);
         let j = J::obj(vec![
             ("property", J::s(prop)),
-            ("kind", J::s("outcome-differs-from-fresh-process")),
+            ("kind", J::s("violation-after-process-history")),
             ("sim", J::s(kind.name())),
             ("master_seed", J::u(opts.seed)),
             ("hooked_build", J::Bool(HOOKED)),
@@ -1037,13 +1059,13 @@ fn run_batch(opts: &Opts) -> Result<u8, String> {
             ("original_history", J::s(format!("runs {}..={} in one fresh single-threaded process", f.orig_from, f.to))),
             ("narrative", J::strs([
                 format!("a fresh single-threaded process executes simulated runs {}..={} (seeds derived from VERIF_SEED={}) one after the other", f.from, f.to, opts.seed),
-                format!("after run {} it re-asks a sample of that run's queries of fresh OS processes (one query per process)", f.to),
+                format!("run {} then fails one of its own checks, or (C08) one of its queries re-asked of a fresh OS process (one query per process) is answered differently", f.to),
                 f.message.clone(),
             ])),
             ("replay_cmd", J::s(format!("./check {prop} --replay {replay_path}"))),
         ]);
         std::fs::write(&replay_path, j.to_string_pretty()).map_err(|e| format!("{replay_path}: {e}"))?;
-        println!("violation after process history of runs {}..={} (kind outcome-differs-from-fresh-process): {}", f.from, f.to, f.message);
+        println!("violation after process history of runs {}..={}: {}", f.from, f.to, f.message);
         println!("minimised history {}..={} -> {}..={}", f.orig_from, f.to, f.from, f.to);
         println!("VIOLATION property={prop} replay={replay_path}");
     }
@@ -1089,6 +1111,7 @@ fn run_batch(opts: &Opts) -> Result<u8, String> {
         agg.aborted
     );
     if exit == 0 && unreproduced > 0 {
+        // (nothing replayable came out of the process histories either)
         // seen while 16 worker threads were using the library at the same time, but neither the run
         // alone nor its thread history reproduces it in a fresh process: state shared ACROSS
         // threads, which the native harness does not schedule. Not a verdict by itself: exit 3
@@ -1351,7 +1374,7 @@ pub fn cmd_replay(args: &[String]) -> u8 {
     if let Some(seg) = j.get("segment") {
         let g = |k: &str| seg.get(k).and_then(|v| v.as_u64()).unwrap_or(0);
         println!("  replaying process history: runs {}..={} under VERIF_SEED={} in this fresh process", g("from"), g("to"), g("seed"));
-        return match run_segment(g("seed"), g("from"), g("to"), g("per_run").max(1) as usize, true) {
+        return match run_segment(prop, g("seed"), g("from"), g("to"), g("per_run").max(1) as usize, true) {
             Ok((_, _, Some((i, msg)))) => {
                 println!("replayed {path}: after run {i}: {msg}");
                 println!("VIOLATION property={prop} replay={path}");
